@@ -426,5 +426,7 @@ func patternWithoutTrailingGlob(p *patternmatcher.Pattern) string {
 }
 
 func isNotExist(err error) bool {
-	return errors.Is(err, os.ErrNotExist) || errors.Is(err, syscall.ENOTDIR)
+	// ELOOP like ENOTDIR: an entry above the one being looked at was replaced while
+	// the walk was inside it (by a file, or by a symlink that does not lead anywhere)
+	return errors.Is(err, os.ErrNotExist) || errors.Is(err, syscall.ENOTDIR) || errors.Is(err, syscall.ELOOP)
 }
